@@ -35,6 +35,11 @@ def run_arm_unit(unit, tag, spec_files, arms, default_props, id_prefix=None, ext
                  extra_trusted=(), extra_items="", lemma_prefixes=("lemma_",), lemma_props=None):
     """arms: name -> dict(contract=str, store=<kind|None>, props=[..], start_proof=str|None,
                           rewrites=[(regex, repl, expected_count|None)], clause='post')"""
+    want = os.environ.get("ABRA_VERIF_PROP")
+    if want:
+        arms = {k: v for k, v in arms.items() if want in v.get('props', default_props)}
+        if not arms:
+            return [], dict(assumptions=[], trusted_base=[], checker_cmds=[], notes={})
     sc = E.Scratch(tag)
     try:
         text = vmenv.prelude(spec_files) + extra_items + "\nimpl VmGreenThread {\n"
